@@ -490,6 +490,66 @@ where
     }
 }
 
+/// Verification hooks: plain-data view of the selected group.
+///
+/// Add-only, compiled only with `--cfg googlefonts_fontations_verif`.
+#[cfg(googlefonts_fontations_verif)]
+pub mod verif_hooks {
+    use super::*;
+
+    #[derive(Debug, Clone, PartialEq, Eq)]
+    pub struct PatchInfoView {
+        pub uri: String,
+        pub is_iftx: bool,
+        pub application_flag_bit_index: usize,
+    }
+
+    #[derive(Debug, Clone, PartialEq, Eq)]
+    pub enum ScopeView {
+        PartialInvalidation(PatchInfoView),
+        NoInvalidation(Vec<PatchInfoView>),
+    }
+
+    #[derive(Debug, Clone, PartialEq, Eq)]
+    pub enum GroupView {
+        Full(PatchInfoView),
+        Mixed { ift: ScopeView, iftx: ScopeView },
+    }
+
+    fn info(p: &PatchInfo) -> PatchInfoView {
+        PatchInfoView {
+            uri: p.uri.clone(),
+            is_iftx: matches!(p.source_table, IftTableTag::Iftx(_)),
+            application_flag_bit_index: p.application_flag_bit_index,
+        }
+    }
+
+    fn scope(s: &ScopedGroup) -> ScopeView {
+        match s {
+            ScopedGroup::PartialInvalidation(p) => ScopeView::PartialInvalidation(info(&p.0)),
+            ScopedGroup::NoInvalidation(m) => {
+                ScopeView::NoInvalidation(m.values().map(|p| info(&p.0)).collect())
+            }
+        }
+    }
+
+    /// The structure of the selected group (None if no candidates intersected).
+    pub fn group_view(group: &PatchGroup) -> Option<GroupView> {
+        group.patches.as_ref().map(|g| match g {
+            CompatibleGroup::Full(p) => GroupView::Full(info(&p.0)),
+            CompatibleGroup::Mixed { ift, iftx } => GroupView::Mixed {
+                ift: scope(ift),
+                iftx: scope(iftx),
+            },
+        })
+    }
+
+    /// URIs of the invalidating patches of the group, in application order.
+    pub fn invalidating_uris(group: &PatchGroup) -> Vec<String> {
+        group.invalidating_patch_iter().map(|p| p.uri.clone()).collect()
+    }
+}
+
 #[cfg(test)]
 mod tests {
     use std::collections::HashMap;
